@@ -93,6 +93,9 @@ def _run_job(args):
                             o["replay"] = job.replay(name, o["model"])
                         except Exception as e:  # replay harness bug is not a verdict
                             o["replay"] = {"confirmed": None, "error": "%s: %s" % (type(e).__name__, e)}
+    except core.Unsupported as e:
+        # the contract's instrumentation no longer fits the function (refactored loops, ...): undecided, not a checker crash
+        out["unsupported"].append("setup: %s" % e)
     except Exception as e:
         out["errors"].append("job crashed: %s: %s\n%s" % (type(e).__name__, e, traceback.format_exc()[-1500:]))
     out["wall_s"] = time.time() - t0
